@@ -5,7 +5,7 @@
    silently; `Print Assumptions` lists the axioms it depends on (none are declared by this development). *)
 From Coq Require Import NArith List Bool String.
 From Octo Require Import Base.Bytes Crypto.Prims Lib.Framed Lib.Canon Model.Address Model.NonceGen Model.SsChunk Model.SsTcp Model.Trojan Model.Socks5 Model.Http Generated.Params Generated.Shared
-  Proofs.AddressFacts Proofs.NonceFacts Proofs.SsChunkRoundtrip Proofs.SsChunkCanon Proofs.SsTcpSafety Proofs.SsTcpRoundtrip Proofs.CodecLemmas Proofs.TrojanFacts Proofs.Socks5Facts Proofs.HttpFacts.
+  Proofs.AddressFacts Proofs.NonceFacts Proofs.SsChunkRoundtrip Proofs.SsChunkCanon Proofs.SsTcpSafety Proofs.SsTcpRoundtrip Proofs.CodecLemmas Proofs.TrojanFacts Proofs.Socks5Facts Proofs.HttpFacts Model.Vmess Proofs.VmessSafety Proofs.VmessFacts Model.SsUdp Proofs.SsUdpFacts.
 Import ListNotations.
 Set Printing Width 200.
 
@@ -31,6 +31,28 @@ Definition C12_counting_injective := @counting_distinct.
 Definition C12_counting_splice_inj := @counting_splice_inj.
 
 
+(* VMess: payload seals of one direction use distinct nonces for 65536 chunks *)
+Definition C12_vmess_payload_nonces := @pay_nonces_distinct.
+(* VMess: authenticated-length seals likewise *)
+Definition C12_vmess_size_nonces := @size_nonces_distinct.
+(* (recorded) the 16-bit counter wraps after 65536 chunks, the width the protocol defines *)
+Definition C12_vmess_counter_wraps := @pay_nonce_wraps.
+(* 2022 UDP: different packet ids of a session give different nonces *)
+Definition C12_udp_nonce_distinct := @udp_nonce_distinct.
+(* the client's packet ids strictly increase and the session ends instead of wrapping *)
+Definition C12_udp_packet_id_never_reused := @packet_id_never_reused.
+(* the server's packet ids never wrap *)
+Definition C12_udp_server_id_no_wrap := @server_packet_id_no_wrap.
+(* KNOWN FINDING F-12b stated exactly: with AuthenticatedLength both directions seal their size fields under the same key and nonces *)
+Definition C12_KNOWN_vmess_auth_len_shared := @auth_len_key_nonce_shared.
+
+Check @C12_vmess_payload_nonces.
+Check @C12_vmess_size_nonces.
+Check @C12_vmess_counter_wraps.
+Check @C12_udp_nonce_distinct.
+Check @C12_udp_packet_id_never_reused.
+Check @C12_udp_server_id_no_wrap.
+Check @C12_KNOWN_vmess_auth_len_shared.
 Check @C12_increasing_injective.
 Check @C12_kth_nonce.
 Check @C12_one_step_per_seal.
@@ -45,3 +67,10 @@ Print Assumptions C12_stream_nonces_unique.
 Print Assumptions C12_enc_nonces_unique.
 Print Assumptions C12_counting_injective.
 Print Assumptions C12_counting_splice_inj.
+Print Assumptions C12_vmess_payload_nonces.
+Print Assumptions C12_vmess_size_nonces.
+Print Assumptions C12_vmess_counter_wraps.
+Print Assumptions C12_udp_nonce_distinct.
+Print Assumptions C12_udp_packet_id_never_reused.
+Print Assumptions C12_udp_server_id_no_wrap.
+Print Assumptions C12_KNOWN_vmess_auth_len_shared.
